@@ -13,7 +13,7 @@ SEC = [D('x', 'int', default=9), D('xl', 'int', F_LIST, default=[3]), D('sub', '
 DECLS = [D('i', 'int', default=1), D('f', 'float', default=0.5), D('b', 'bool', default=0), D('s', 'str', default='d'),
          D('il', 'int', F_LIST, default=[1, 2]), D('sl', 'str', F_LIST, default=['a']),
          D('sec', 'sec', F_MULTI | F_TITLE, sub=SEC), D('one', 'sec', 0, sub=[D('z', 'int', default=1), D('zs', 'str', default='q')]),
-         D('fn', 'func', cbs='F')]
+         D('fn', 'func', cbs='F'), D('dep', 'int', core.F_DEPRECATED, 3), D('drp', 'str', core.F_DEPRECATED | core.F_DROP, 'old')]
 
 RULE = ('accepted texts over a fixed schema x every item boundary at every depth x generated unknown items (assignment, list incl. empty, append, function call, plain and titled '
         'sections that are empty / end in a scalar / a list / a call / contain known names, nested recursively) plus multi-insertions; with CFGF_IGNORE_UNKNOWN the return code and the '
@@ -188,9 +188,7 @@ def judge(spec, events, death):
     if not br or br[0]['rc'] != 0 or not bh:
         v.skipped = True          # base text not accepted (generator): nothing to compare
         return v
-    if any(e.get('ev') == 'diag' for e in head):
-        v.bad('harness:base-has-diagnostics', 'base text gives diagnostics')
-        return v
+    base_diags = sorted(unhx(e['msg']) for e in head if e.get('ev') == 'diag')      # deprecated options legitimately report
     base_h = bh[0]['h']
     vi = -1
     for g in groups:
@@ -208,8 +206,8 @@ def judge(spec, events, death):
                 v.bad('with-flag:rejected:%s' % kind, 'unknown item (%s) makes the text rejected under ignore-unknown: %r; text %r' % (kind, dg[:2], text[:300]))
             elif h[0]['h'] != base_h:
                 v.bad('with-flag:values-changed:%s' % kind, 'unknown item (%s) changes values under ignore-unknown; text %r' % (kind, text[:300]))
-            elif dg:
-                v.bad('with-flag:diagnostic:%s' % kind, 'unknown item (%s) produces a diagnostic under ignore-unknown: %r' % (kind, dg[:2]))
+            elif sorted(dg) != base_diags:
+                v.bad('with-flag:diagnostic:%s' % kind, 'unknown item (%s) changes the diagnostics under ignore-unknown: %r, without it %r; text %r' % (kind, dg[:3], base_diags[:3], text[:200]))
         else:
             kind, text = spec['variants'][vi]
             if not r or r[0]['rc'] != 1:
